@@ -1109,7 +1109,7 @@ HEAVY = {"pow2_mono", "be_msb", "bytelen_mono", "shr_def", "shr_bound"}     # qu
 # optional theories: only obligations of contracts that ask for them get these axioms (keeps every other query small)
 GROUPS = {"shift": {"shr_zero", "shr_shr", "shr_cong", "shr_def", "shr_small", "shr_bound", "be_prefix"},
           "list": {"llen_nonneg", "lapp_def", "lapp_at", "lrev_len", "lrev_at", "lpadz_len", "lpadz_at", "lcons_len", "lcons_at", "lset_len", "lset_at", "bol_len", "bol_at"},
-          "b128": {"subid_len_def", "subid_len_unique", "subid_len_bytes", "subid_at"}}
+          "b128": {"subid_len_def", "subid_len_unique", "subid_len_bytes", "subid_at", "oid_body_app", "oid_body_cons"}}
 _OPTIONAL = set().union(*GROUPS.values())
 
 
@@ -1118,6 +1118,9 @@ def base_axioms(heavy=True, theories=()):
     for t in theories:
         on |= GROUPS.get(t, set())
     ground = [LLEN(LEMPTY) == 0] if "list" in theories else []
+    if "b128" in theories:
+        from spec import der as _specder
+        ground.append(LEN(_specder.OID_BODY(LEMPTY)) == 0)
     return _beq_axioms() + ground + [a.term() for a in AXIOMS if (heavy or a.name not in HEAVY) and (a.name not in _OPTIONAL or a.name in on)]
 
 
